@@ -498,6 +498,8 @@ func VH_C03_Latin1Class() { vhC03(vhDefLatin1Class()) }
 
 func VH_C03_BackrefOptGroup() { vhC03In(vhDefBackrefOptGroup(), vhInputASCII()) }
 
+func VH_C03_ReplacementLit() { vhC03(vhDefReplacementLit()) }
+
 func VH_C03_NonASCIINames() { vhC03In(vhDefNonASCIINames(), vhInputASCII()) }
 
 func VH_C04_NonASCIINames() { vhC04In(vhDefNonASCIINames(), vhInputASCII()) }
